@@ -3,6 +3,7 @@ package interpreter
 import (
 	"bufio"
 	"fmt"
+	"io"
 	"os"
 	"strings"
 	"time"
@@ -56,7 +57,8 @@ func (n NativeInputFn) Call(i *Interpreter, arguments []interface{}) (interface{
 
 	// Read the input from the user
 	input, err := stdinReader.ReadString('\n')
-	if err != nil {
+	if err != nil && !(err == io.EOF && input != "") {
+		// a last line without a trailing newline is still a line; only an empty read fails
 		return nil, fmt.Errorf("failed to read input: %v", err)
 	}
 
